@@ -266,6 +266,29 @@ Proof.
       apply negb_true_iff in S. now rewrite (last_indep (d :: t) c d) by discriminate.
 Qed.
 
+(* ------------------------------------------------------------------ blanks after "*" *)
+Lemma star_space_other rest : prefix [c_star] rest = false -> star_space rest = rest.
+Proof.
+  destruct rest as [|c r]; [reflexivity|]. cbn [prefix star_space]. rewrite (Ascii.eqb_sym c c_star).
+  now destruct (Ascii.eqb c_star c).
+Qed.
+
+Lemma stop_not_star t : stop_next t = true -> prefix [c_star] t = false.
+Proof.
+  destruct t as [|c r]; [reflexivity|]. cbn [stop_next prefix]. intros H.
+  destruct (Ascii.eqb c_star c) eqn:E; [|reflexivity]. apply Ascii.eqb_eq in E. subst c. discriminate H.
+Qed.
+
+Lemma star_space_blanks b d y : is_space d = false ->
+  star_space (c_star :: blanks b ++ d :: y) = c_star :: d :: y.
+Proof.
+  intros H. destruct b as [|b].
+  - cbn [blanks repeat app star_space]. change (Ascii.eqb c_star c_star) with true. cbv match. now rewrite H.
+  - change (blanks (S b) ++ d :: y) with (c_sp :: (blanks b ++ d :: y)).
+    cbn [star_space]. change (Ascii.eqb c_star c_star) with true. change (is_space c_sp) with true. cbv match.
+    cbn [skip_ws]. change (is_space c_sp) with true. cbv match. rewrite skip_ws_bl. now rewrite skip_ws_head.
+Qed.
+
 (* ------------------------------------------------------------------ after the type word *)
 Definition plain_type (vt : str) : bool := negb (one_of vt [s "type"; s "class"; s "character"]).
 
@@ -276,7 +299,7 @@ Lemma after_type_none vt n t : tail_ok n t = true ->
   else if seqb vt (s "character") then Ok (mkpt vt t None (Some (s "1")) None) else value_error.
 Proof.
   intros H. destruct (tail_ok_inv n t H) as (S & N & _).
-  unfold after_type. rewrite (strip_tail n t H).
+  unfold after_type. rewrite (strip_tail n t H), (star_space_other t (stop_not_star t N)).
   unfold get_parens. rewrite (get_parens_stop t [] N). cbn [rev length skipn].
   rewrite (stripped_strip t S). unfold plain_type.
   change (0 <? 3) with true. change (prefix [c_star] []) with false. cbn [negb andb].
@@ -296,7 +319,7 @@ Proof.
       by (cbn [app]; now rewrite <- app_assoc).
     apply (strip_group_tail _ c_lpar (body ++ [c_rpar])); auto.
     change (c_lpar :: body ++ [c_rpar]) with ((c_lpar :: body) ++ [c_rpar]). now rewrite last_last. }
-  rewrite E.
+  rewrite E. rewrite star_space_other by reflexivity.
   assert (G : get_parens ((c_lpar :: body ++ [c_rpar]) ++ blanks n ++ t) = Some (c_lpar :: body ++ [c_rpar])).
   { replace ((c_lpar :: body ++ [c_rpar]) ++ blanks n ++ t) with (c_lpar :: body ++ c_rpar :: blanks n ++ t)
       by (cbn [app]; now rewrite <- app_assoc).
@@ -310,12 +333,31 @@ Proof.
 Qed.
 
 (* "*" followed by digits *)
-Lemma after_type_star vt ds n t :
+Lemma digit_nospace d : is_digit d = true -> is_space d = false.
+Proof.
+  intros D. destruct (is_space d) eqn:Sd; [|reflexivity]. exfalso. unfold is_digit, is_space in *.
+  apply andb_true_iff in D as [D1 D2]. apply Nat.leb_le in D1, D2.
+  apply orb_true_iff in Sd as [Sd|Sd]; apply andb_true_iff in Sd as [S1 S2]; apply Nat.leb_le in S1, S2; lia.
+Qed.
+
+Lemma after_type_star vt b ds n t :
   ds <> [] -> forallb is_digit ds = true -> tail_ok n t = true ->
-  after_type vt (c_star :: ds ++ blanks n ++ t) = finish_type vt t true ds.
+  after_type vt (c_star :: blanks b ++ ds ++ blanks n ++ t) = finish_type vt t true ds.
 Proof.
   intros Nd D H. destruct (tail_ok_inv n t H) as (S & N & Z).
   unfold after_type.
+  assert (E0 : star_space (strip (c_star :: blanks b ++ ds ++ blanks n ++ t)) = (c_star :: ds) ++ blanks n ++ t).
+  { assert (Lx : forall c, is_space (last (c_star :: blanks b ++ ds) c) = false).
+    { intros c. change (c_star :: blanks b ++ ds) with ((c_star :: blanks b) ++ ds). rewrite last_app by exact Nd.
+      destruct (exists_last Nd) as (ds' & z & ->). rewrite last_last.
+      rewrite forallb_app in D. apply andb_true_iff in D as [_ D]. simpl in D. rewrite andb_true_r in D.
+      now apply digit_nospace. }
+    replace (c_star :: blanks b ++ ds ++ blanks n ++ t) with ((c_star :: blanks b ++ ds) ++ blanks n ++ t)
+      by (cbn [app]; now rewrite <- app_assoc).
+    rewrite (strip_group_tail _ c_star (blanks b ++ ds) n t eq_refl eq_refl (Lx c_star) H).
+    destruct ds as [|d ds]; [congruence|]. cbn [forallb] in D. apply andb_true_iff in D as [Dd _].
+    cbn [app]. rewrite <- app_assoc. cbn [app]. now rewrite (star_space_blanks b d _ (digit_nospace d Dd)). }
+  rewrite E0. clear E0.
   assert (Ld : forall c, is_space (last (c_star :: ds) c) = false).
   { intros c. change (c_star :: ds) with ([c_star] ++ ds). rewrite last_app by exact Nd.
     destruct (exists_last Nd) as (ds' & z & ->). rewrite last_last.
@@ -323,9 +365,6 @@ Proof.
     unfold inert in *. destruct (is_space z) eqn:Sz; [|reflexivity].
     exfalso. unfold is_digit, is_space in *. apply andb_true_iff in D as [D1 D2]. apply Nat.leb_le in D1, D2.
     apply orb_true_iff in Sz as [Sz|Sz]; apply andb_true_iff in Sz as [S1 S2]; apply Nat.leb_le in S1, S2; lia. }
-  assert (E : strip ((c_star :: ds) ++ blanks n ++ t) = (c_star :: ds) ++ blanks n ++ t).
-  { apply (strip_group_tail _ c_star ds); auto. }
-  change (c_star :: ds ++ blanks n ++ t) with ((c_star :: ds) ++ blanks n ++ t). rewrite E.
   assert (I : forallb inert (c_star :: ds) = true).
   { cbn [forallb]. apply andb_true_iff. split; [reflexivity|].
     apply forallb_forall. intros c Hc. rewrite forallb_forall in D. now apply digit_inert, D. }
@@ -437,9 +476,9 @@ Proof.
   - now exists [].
 Qed.
 
-Lemma kind_re_none x : existsb (Ascii.eqb c_eq) x = false -> kind_re x = None.
+Lemma key_eq_rest_none key x : existsb (Ascii.eqb c_eq) x = false -> key_eq_rest key x = None.
 Proof.
-  intros H. unfold kind_re. destruct (match_ci (s "kind") x) as [r|] eqn:M; [|reflexivity].
+  intros H. unfold key_eq_rest. destruct (match_ci key x) as [r|] eqn:M; [|reflexivity].
   destruct (skip_ws r) as [|c r2] eqn:Sk; [reflexivity|].
   destruct (Ascii.eqb c c_eq) eqn:E; [|reflexivity]. exfalso.
   apply Ascii.eqb_eq in E. subst c.
@@ -449,25 +488,24 @@ Proof.
   congruence.
 Qed.
 
+Lemma kind_re_none x : existsb (Ascii.eqb c_eq) x = false -> kind_re x = None.
+Proof. apply key_eq_rest_none. Qed.
+
 Lemma skip_ws_nospace x : existsb is_space x = false -> skip_ws x = x.
 Proof. destruct x as [|c x]; [reflexivity|]. simpl. intros H. apply orb_false_iff in H as [H _]. now rewrite H. Qed.
 
-(* "kind = k" without white space *)
-Lemma kind_re_keyeq kc k : k <> [] -> existsb is_space k = false -> existsb (Ascii.eqb c_comma) k = false ->
-  kind_re (recase kc (s "kind") ++ c_eq :: k) = Some k.
+(* "key = v" without white space: the whole of v *)
+Lemma key_eq_rest_keyeq kc key v : forallb is_lower key = true -> v <> [] -> existsb is_space v = false ->
+  key_eq_rest key (recase kc key ++ c_eq :: v) = Some v.
 Proof.
-  intros N S C. unfold kind_re. rewrite match_ci_recase by reflexivity.
-  cbn [skip_ws]. change (is_space c_eq) with false. cbv iota. change (Ascii.eqb c_eq c_eq) with true. cbv iota.
-  rewrite (skip_ws_nospace k S).
-  rewrite (take_while_end _ k).
-  - destruct k; [congruence|reflexivity].
-  - apply forallb_forall. intros c Hc. apply andb_true_iff. split; apply negb_true_iff.
-    + destruct (Ascii.eqb c c_comma) eqn:E; [|reflexivity]. apply Ascii.eqb_eq in E. subst.
-      assert (existsb (Ascii.eqb c_comma) k = true) by (apply existsb_exists; exists c_comma; split; [assumption|apply Ascii.eqb_refl]).
-      congruence.
-    + destruct (is_space c) eqn:E; [|reflexivity].
-      assert (existsb is_space k = true) by (apply existsb_exists; eauto). congruence.
+  intros L N S. unfold key_eq_rest. rewrite match_ci_recase by exact L.
+  cbn [skip_ws]. change (is_space c_eq) with false. cbv match. change (Ascii.eqb c_eq c_eq) with true. cbv match.
+  unfold rest_group. rewrite (skip_ws_nospace v S). destruct v; [congruence|reflexivity].
 Qed.
+
+Lemma kind_re_keyeq kc k : k <> [] -> existsb is_space k = false ->
+  kind_re (recase kc (s "kind") ++ c_eq :: k) = Some k.
+Proof. intros N S. now apply key_eq_rest_keyeq. Qed.
 
 Lemma remove_ws_keyeq sp key v : forallb is_lower key = true -> existsb is_space v = false ->
   remove_ws (keyeq sp key v) = recase (t_kcase sp) key ++ c_eq :: v.
@@ -521,10 +559,10 @@ Lemma all_digits_inv k : all_digits k = true -> k <> [] /\ forallb is_digit k = 
 Proof. unfold all_digits. destruct k; [discriminate|]. intros H. split; [discriminate|exact H]. Qed.
 
 Theorem type_spellings_num sp b k n t :
-  type_ok sp (ANum b k) = true -> type_region sp (ANum b k) = 0 -> tail_ok n t = true ->
+  type_ok sp (ANum b k) = true -> tail_ok n t = true ->
   parse_type (render_type sp (ANum b k) ++ blanks n ++ t) = Ok (mkpt (base_word b) t k None None).
 Proof.
-  intros W R T.
+  intros W T.
   assert (Lw : forallb is_lower (base_word b) = true) by (destruct b; reflexivity).
   assert (Nd : normalise_double (base_word b) = base_word b) by (destruct b; reflexivity).
   assert (Pl : plain_type (base_word b) = true) by (destruct b; reflexivity).
@@ -539,20 +577,16 @@ Proof.
       rewrite after_type_paren; [|now apply padded_nonempty|now rewrite bal_padded|exact T].
       rewrite remove_ws_padded, (remove_ws_id k Sk), finish_num. now rewrite (kind_re_none k Ek).
     + (* (kind=k) *)
-      cbn [type_region] in R. rewrite Form in R.
-      assert (Ck : has_comma k = false) by (destruct (has_comma k); [discriminate|reflexivity]).
       rewrite paren_shape.
       rewrite after_type_paren; [|apply padded_nonempty, keyeq_nonempty, Nk
                                  |now rewrite bal_padded, bal_keyeq by reflexivity|exact T].
       rewrite remove_ws_padded, remove_ws_keyeq by (try reflexivity; exact Sk).
-      rewrite finish_num. now rewrite (kind_re_keyeq _ k Nk Sk Ck).
-    + (* *k *)
-      cbn [type_region] in R. rewrite Form in R.
-      destruct (t_bstar sp =? 0) eqn:Bs; [|discriminate]. apply Nat.eqb_eq in Bs.
+      rewrite finish_num. now rewrite (kind_re_keyeq _ k Nk Sk).
+    + (* *k, with any number of blanks after the star *)
       change (2 <=? S (S f)) with true in F. cbv iota in F.
       destruct (all_digits_inv k F) as (_ & Dk).
-      rewrite Bs. cbn [blanks repeat app].
-      rewrite (after_type_star _ k n t Nk Dk T), finish_num.
+      cbn [app]. rewrite <- app_assoc.
+      rewrite (after_type_star _ (t_bstar sp) k n t Nk Dk T), finish_num.
       now rewrite (kind_re_none k (digits_no_eq k Dk)).
   - cbn [render_type].
     rewrite (parse_type_word _ _ _ (base_word_simple b) Lw), Nd.
@@ -562,34 +596,30 @@ Qed.
 (* ------------------------------------------------------------------ double precision / double complex *)
 Lemma normalise_double_blanks d second :
   (second = s "precision" \/ second = s "complex") ->
-  normalise_double (s "double" ++ blanks (S d) ++ second) = s "double" ++ [c_sp] ++ second.
+  normalise_double (s "double" ++ blanks d ++ second) = s "double" ++ [c_sp] ++ second.
 Proof.
   intros H. unfold normalise_double.
-  change (match_ci (s "double") (s "double" ++ blanks (S d) ++ second)) with (Some (blanks (S d) ++ second)).
-  change (blanks (S d) ++ second) with (c_sp :: (blanks d ++ second)).
-  change (is_space c_sp) with true. cbv iota. cbn [skip_ws]. change (is_space c_sp) with true. cbv iota.
-  rewrite skip_ws_bl. destruct H as [-> | ->]; reflexivity.
+  change (match_ci (s "double") (s "double" ++ blanks d ++ second)) with (Some (blanks d ++ second)).
+  cbv match. rewrite skip_ws_bl. destruct H as [-> | ->]; reflexivity.
 Qed.
 
+(* any number of blanks, none included, between the two words *)
 Theorem type_spellings_double sp (complex : bool) n t :
   let T := if complex then ADoubleComplex else ADouble in
-  type_region sp T = 0 -> tail_ok n t = true ->
+  tail_ok n t = true ->
   parse_type (render_type sp T ++ blanks n ++ t)
   = Ok (mkpt (if complex then s "double complex" else s "double precision") t None None None).
 Proof.
-  intros T R H. set (second := if complex then s "complex" else s "precision").
+  intros T H. set (second := if complex then s "complex" else s "precision").
   assert (Hs : second = s "precision" \/ second = s "complex") by (unfold second; destruct complex; auto).
   assert (Ls : forallb is_lower second = true) by (unfold second; destruct complex; reflexivity).
   assert (Rt : render_type sp T = recase (t_case sp) (s "double") ++ blanks (t_dbl sp) ++ recase (skipn 6 (t_case sp)) second)
     by (unfold T, second; destruct complex; reflexivity).
-  assert (D : t_dbl sp <> 0).
-  { unfold T in R. destruct complex; cbn [type_region] in R; destruct (t_dbl sp =? 0) eqn:E; try discriminate;
-      now apply Nat.eqb_neq. }
-  destruct (t_dbl sp) as [|d] eqn:Ed; [congruence|].
+  set (d := t_dbl sp) in *.
   rewrite Rt. unfold parse_type, match_vartype. repeat rewrite <- app_assoc.
-  rewrite (match_alts_double (t_case sp) (S d) second (blanks n ++ t) Hs).
-  replace (recase (t_case sp) (s "double") ++ blanks (S d) ++ recase (skipn 6 (t_case sp)) second ++ blanks n ++ t)
-    with ((recase (t_case sp) (s "double") ++ blanks (S d) ++ recase (skipn 6 (t_case sp)) second) ++ blanks n ++ t)
+  rewrite (match_alts_double (t_case sp) d second (blanks n ++ t) Hs).
+  replace (recase (t_case sp) (s "double") ++ blanks d ++ recase (skipn 6 (t_case sp)) second ++ blanks n ++ t)
+    with ((recase (t_case sp) (s "double") ++ blanks d ++ recase (skipn 6 (t_case sp)) second) ++ blanks n ++ t)
     by (now repeat rewrite <- app_assoc).
   rewrite firstn_app_len.
   rewrite lower_is_map, !map_app, map_lower_blanks, !lower_recase by (try reflexivity; exact Ls).
@@ -662,21 +692,27 @@ Qed.
 
 (* ------------------------------------------------------------------ character *)
 (* "*" followed by a parenthesised length *)
-Lemma after_type_star_paren vt body n t :
+Lemma after_type_star_paren vt b body n t :
   body <> [] -> bal 0 0 body = true -> tail_ok n t = true ->
-  after_type vt (c_star :: c_lpar :: body ++ c_rpar :: blanks n ++ t) = finish_type vt t true (remove_ws body).
+  after_type vt (c_star :: blanks b ++ c_lpar :: body ++ c_rpar :: blanks n ++ t) = finish_type vt t true (remove_ws body).
 Proof.
   intros Nb B H. destruct (tail_ok_inv n t H) as (S & N & Z).
   unfold after_type.
   set (X := c_star :: c_lpar :: body ++ [c_rpar]).
   assert (EX : c_star :: c_lpar :: body ++ c_rpar :: blanks n ++ t = X ++ blanks n ++ t)
     by (unfold X; cbn [app]; now rewrite <- app_assoc).
-  rewrite EX.
-  assert (E : strip (X ++ blanks n ++ t) = X ++ blanks n ++ t).
-  { apply (strip_group_tail X c_star (c_lpar :: body ++ [c_rpar])); auto.
-    unfold X. change (c_star :: c_lpar :: body ++ [c_rpar]) with ((c_star :: c_lpar :: body) ++ [c_rpar]).
-    now rewrite last_last. }
-  rewrite E.
+  assert (E0 : star_space (strip (c_star :: blanks b ++ c_lpar :: body ++ c_rpar :: blanks n ++ t)) = X ++ blanks n ++ t).
+  { set (Y := c_star :: blanks b ++ c_lpar :: body ++ [c_rpar]).
+    assert (EY : c_star :: blanks b ++ c_lpar :: body ++ c_rpar :: blanks n ++ t = Y ++ blanks n ++ t).
+    { unfold Y. cbn [app]. rewrite <- app_assoc. cbn [app]. now rewrite <- app_assoc. }
+    rewrite EY.
+    rewrite (strip_group_tail Y c_star (blanks b ++ c_lpar :: body ++ [c_rpar]) n t eq_refl eq_refl); [|
+      unfold Y; replace (c_star :: blanks b ++ c_lpar :: body ++ [c_rpar])
+                  with ((c_star :: blanks b ++ c_lpar :: body) ++ [c_rpar])
+                  by (cbn [app]; rewrite <- app_assoc; reflexivity);
+      now rewrite last_last | exact H].
+    rewrite <- EY, <- EX. now rewrite (star_space_blanks b c_lpar _ eq_refl). }
+  rewrite E0. clear E0.
   assert (G : get_parens (X ++ blanks n ++ t) = Some X).
   { rewrite <- EX. unfold get_parens. cbn [get_parens_go].
     change (Ascii.eqb c_star c_lpar) with false. change (Ascii.eqb c_star c_rpar) with false.
@@ -743,105 +779,42 @@ Proof.
   - simpl. exact H.
 Qed.
 
-(* LEN_RE on the three shapes of a length *)
-Lemma len_re_named kc l : simple_len l = true -> len_re (recase kc (s "len") ++ c_eq :: l) = Some l.
-Proof.
-  intros H. unfold len_re. rewrite match_ci_recase by reflexivity.
-  cbn [skip_ws]. change (is_space c_eq) with false. cbv iota. change (Ascii.eqb c_eq c_eq) with true. cbv iota.
-  unfold simple_len in H. apply orb_true_iff in H as [H|H]; [apply orb_true_iff in H as [H|H]|].
-  - destruct l as [|c l]; [discriminate|].
-    rewrite (skip_ws_nospace _ (words_nospace _ H)). now rewrite (take_while_end is_word _ H).
-  - apply seqb_eq in H. subst l. reflexivity.
-  - apply seqb_eq in H. subst l. reflexivity.
-Qed.
+(* LEN_RE *)
+Lemma len_re_named kc l : l <> [] -> existsb is_space l = false ->
+  len_re (recase kc (s "len") ++ c_eq :: l) = Some l.
+Proof. intros N S. now apply key_eq_rest_keyeq. Qed.
 
-Lemma match_ci_digit w d x : w <> [] -> forallb is_lower w = true -> is_digit d = true -> match_ci w (d :: x) = None.
-Proof.
-  destruct w as [|a w]; [congruence|]. intros _ L D. simpl in L. apply andb_true_iff in L as [La _].
-  simpl. destruct (Ascii.eqb a (lower_ch d)) eqn:E; [|reflexivity]. apply Ascii.eqb_eq in E. exfalso.
-  assert (U : is_upper d = false).
-  { unfold is_digit, is_upper in *. apply andb_true_iff in D as [D1 D2]. apply Nat.leb_le in D1, D2.
-    apply andb_false_iff. left. apply Nat.leb_gt. lia. }
-  unfold lower_ch in E. rewrite U in E. subst a.
-  unfold is_digit, is_lower in *. apply andb_true_iff in D as [D1 D2]. apply andb_true_iff in La as [L1 L2].
-  apply Nat.leb_le in D1, D2, L1, L2. lia.
-Qed.
-
-Lemma len_re_digits l : all_digits l = true -> len_re l = Some l.
-Proof.
-  intros H. destruct (all_digits_inv l H) as (N & D). unfold len_re.
-  destruct l as [|d l]; [congruence|]. cbn [forallb] in D. apply andb_true_iff in D as [Dd Dl].
-  rewrite (match_ci_digit (s "len") d l) by (try discriminate; auto).
-  rewrite (take_while_end is_digit (d :: l)) by (cbn [forallb]; now rewrite Dd, Dl). reflexivity.
-Qed.
-
-Lemma len_re_other l : existsb (Ascii.eqb c_eq) l = false -> starts_digit l = false -> len_re l = None.
-Proof.
-  intros E S. unfold len_re.
-  assert (M : match match_ci (s "len") l with
-              | Some r => match skip_ws r with
-                          | c :: r2 => if Ascii.eqb c c_eq
-                                       then match take_while is_word (skip_ws r2) with
-                                            | ((_ :: _) as w, _) => Some w
-                                            | ([], _) => match skip_ws r2 with
-                                                         | d :: _ => if Ascii.eqb d c_star then Some [c_star]
-                                                                     else if Ascii.eqb d c_colon then Some [c_colon] else None
-                                                         | [] => None
-                                                         end
-                                            end
-                                       else None
-                          | [] => None
-                          end
-              | None => None
-              end = None).
-  { destruct (match_ci (s "len") l) as [r|] eqn:Mc; [|reflexivity].
-    destruct (skip_ws r) as [|c r2] eqn:Sk; [reflexivity|].
-    destruct (Ascii.eqb c c_eq) eqn:Ec; [|reflexivity]. exfalso. apply Ascii.eqb_eq in Ec. subst c.
-    destruct (match_ci_suffix _ _ _ Mc) as (p & ->). destruct (skip_ws_suffix r) as (q & Er). rewrite Sk in Er.
-    assert (In c_eq (p ++ r)) by (rewrite Er; apply in_or_app; right; apply in_or_app; right; now left).
-    assert (existsb (Ascii.eqb c_eq) (p ++ r) = true) by (apply existsb_exists; exists c_eq; split; [assumption|apply Ascii.eqb_refl]).
-    congruence. }
-  rewrite M. destruct l as [|d l]; [reflexivity|]. simpl in S. cbn [take_while]. now rewrite S.
-Qed.
+Lemma len_re_other l : existsb (Ascii.eqb c_eq) l = false -> len_re l = None.
+Proof. apply key_eq_rest_none. Qed.
 
 (* the first parameter written positionally *)
 Lemma char_first_positional l rest kind :
-  expr_ok l = true -> positional_region l = 0 ->
-  char_params (l :: rest) None kind = char_params rest (Some l) kind.
+  expr_ok l = true -> char_params (l :: rest) None kind = char_params rest (Some l) kind.
 Proof.
-  intros E R. destruct (expr_ok_inv l E) as (N & S & Eq & B).
-  unfold positional_region in R. cbn [char_params].
-  destruct (starts_digit l) eqn:Sd.
-  - destruct (all_digits l) eqn:Ad; [|discriminate]. now rewrite (len_re_digits l Ad).
-  - rewrite (len_re_other l Eq Sd). rewrite (kind_re_none l Eq). destruct kind; reflexivity.
+  intros E. destruct (expr_ok_inv l E) as (N & S & Eq & B).
+  cbn [char_params]. rewrite (len_re_other l Eq), (kind_re_none l Eq). destruct kind; reflexivity.
 Qed.
 
 Lemma char_first_named kc l rest kind :
-  simple_len l = true ->
+  l <> [] -> existsb is_space l = false ->
   char_params ((recase kc (s "len") ++ c_eq :: l) :: rest) None kind = char_params rest (Some l) kind.
-Proof. intros H. cbn [char_params]. now rewrite (len_re_named kc l H). Qed.
+Proof. intros N S. cbn [char_params]. now rewrite (len_re_named kc l N S). Qed.
 
 Lemma len_re_kind_text kc k : len_re (recase kc (s "kind") ++ c_eq :: k) = None.
 Proof.
-  unfold len_re.
-  rewrite (match_ci_lower (s "len")) by (rewrite map_app, lower_recase by reflexivity; reflexivity).
-  destruct (recase_head kc "k"%char (s "ind") eq_refl) as (d & r & E & A & _).
-  change (s "kind") with ("k"%char :: s "ind"). rewrite E. cbn [app take_while].
-  assert (D : is_digit d = false).
-  { unfold is_alpha, is_upper, is_lower, is_digit in *. apply andb_false_iff. right. apply Nat.leb_gt.
-    apply orb_true_iff in A as [A|A]; apply andb_true_iff in A as [A1 A2]; apply Nat.leb_le in A1; lia. }
-  now rewrite D.
+  unfold len_re, key_eq_rest.
+  now rewrite (match_ci_lower (s "len")) by (rewrite map_app, lower_recase by reflexivity; reflexivity).
 Qed.
 
 Lemma has_quote_false k : existsb is_quote k = false -> has_quote k = false.
 Proof. auto. Qed.
 
 Lemma char_kind_named kc k rest len :
-  expr_ok k = true -> has_comma k = false -> existsb is_quote k = false ->
+  expr_ok k = true -> existsb is_quote k = false ->
   char_params ((recase kc (s "kind") ++ c_eq :: k) :: rest) len None = char_params rest len (Some k).
 Proof.
-  intros E C Q. destruct (expr_ok_inv k E) as (N & S & _ & _).
-  cbn [char_params]. rewrite len_re_kind_text, (kind_re_keyeq kc k N S C).
+  intros E Q. destruct (expr_ok_inv k E) as (N & S & _ & _).
+  cbn [char_params]. rewrite len_re_kind_text, (kind_re_keyeq kc k N S).
   unfold has_quote. rewrite Q. destruct len; reflexivity.
 Qed.
 
@@ -899,15 +872,15 @@ Proof. intros Ha Hb. cbn [app]. now rewrite (split_on_app c_comma a b Ha), (spli
 Ltac fixty := change (@cons (list ascii)) with (@cons str); change (@nil (list ascii)) with (@nil str).
 
 Theorem type_spellings_char sp l k n t :
-  type_ok sp (AChar l k) = true -> type_region sp (AChar l k) = 0 -> tail_ok n t = true ->
+  type_ok sp (AChar l k) = true -> tail_ok n t = true ->
   parse_type (render_type sp (AChar l k) ++ blanks n ++ t)
   = Ok (mkpt (s "character") t k (Some (match l with Some x => x | None => s "1" end)) None).
 Proof.
-  intros W R T.
+  intros W T.
   assert (Iw : In (s "character") simple_words) by (simpl; auto).
   assert (P : forall y, parse_type (recase (t_case sp) (s "character") ++ y) = after_type (s "character") y).
   { intros y. now rewrite (parse_type_word _ (s "character") y Iw eq_refl). }
-  destruct l as [l|], k as [k|]; cbn [render_type type_ok type_region] in *.
+  destruct l as [l|], k as [k|]; cbn [render_type type_ok] in *.
   - (* length and kind *)
     repeat (apply andb_true_iff in W as [W ?]).
     apply negb_true_iff in H, H0.
@@ -919,17 +892,16 @@ Proof.
     + rewrite after_type_paren; [|apply padded_nonempty; destruct l; [congruence|discriminate]
                                  |now rewrite bal_padded, (bal_app l _ Bl), bal_comma|exact T].
       rewrite remove_ws_padded, !remove_ws_app, remove_ws_comma, (remove_ws_id l Sl), (remove_ws_id k Sk).
-      rewrite finish_char. cbv zeta. cbn [app]. rewrite (split_on_app c_comma l k Cl), (split_on_none c_comma k Ck).
-      change (2 <? length [l; k]) with false. cbv match. fixty.
-      rewrite (char_first_positional l [k] None El R), (char_kind_positional k [] l Ek). reflexivity.
+      rewrite finish_char. cbv zeta. rewrite (split_two l k Cl Ck).
+      change (2 <? 2) with false. cbv match. fixty.
+      rewrite (char_first_positional l [k] None El), (char_kind_positional k [] l Ek). reflexivity.
     + rewrite after_type_paren; [|apply padded_nonempty; destruct l; [congruence|discriminate]
                                  |now rewrite bal_padded, (bal_app l _ Bl), bal_comma|exact T].
       rewrite remove_ws_padded, !remove_ws_app, remove_ws_comma, (remove_ws_id l Sl), (remove_ws_id k Sk).
-      rewrite finish_char. cbv zeta. cbn [app]. rewrite (split_on_app c_comma l k Cl), (split_on_none c_comma k Ck).
-      change (2 <? length [l; k]) with false. cbv match. fixty.
-      rewrite (char_first_positional l [k] None El R), (char_kind_positional k [] l Ek). reflexivity.
+      rewrite finish_char. cbv zeta. rewrite (split_two l k Cl Ck).
+      change (2 <? 2) with false. cbv match. fixty.
+      rewrite (char_first_positional l [k] None El), (char_kind_positional k [] l Ek). reflexivity.
     + (* len=l, kind=k *)
-      assert (Sl' : simple_len l = true) by (unfold named_region in R; destruct (simple_len l); [reflexivity|discriminate]).
       rewrite after_type_paren; [|apply padded_nonempty; intros E0; apply app_eq_nil in E0 as [E0 _]; now apply (keyeq_nonempty sp (s "len") l Nl)
                                  | |exact T].
       2:{ rewrite bal_padded. rewrite bal_app by (now rewrite bal_keyeq by reflexivity).
@@ -938,9 +910,8 @@ Proof.
       rewrite finish_char. cbv zeta.
       rewrite split_two by (apply keyeq_no_comma; [reflexivity|assumption]).
       change (2 <? 2) with false. cbv match. fixty.
-      rewrite (char_first_named _ l _ None Sl'), (char_kind_named _ k [] (Some l) Ek Ck Qk). reflexivity.
+      rewrite (char_first_named _ l _ None Nl Sl), (char_kind_named _ k [] (Some l) Ek Qk). reflexivity.
     + (* kind=k, len=l *)
-      assert (Sl' : simple_len l = true) by (unfold named_region in R; destruct (simple_len l); [reflexivity|discriminate]).
       rewrite after_type_paren; [|apply padded_nonempty; intros E0; apply app_eq_nil in E0 as [E0 _]; now apply (keyeq_nonempty sp (s "kind") k Nk)
                                  | |exact T].
       2:{ rewrite bal_padded. rewrite bal_app by (now rewrite bal_keyeq by reflexivity).
@@ -949,7 +920,7 @@ Proof.
       rewrite finish_char. cbv zeta.
       rewrite split_two by (apply keyeq_no_comma; [reflexivity|assumption]).
       change (2 <? 2) with false. cbv match. fixty.
-      rewrite (char_kind_named _ k _ None Ek Ck Qk), (char_first_named _ l [] (Some k) Sl'). reflexivity.
+      rewrite (char_kind_named _ k _ None Ek Qk), (char_first_named _ l [] (Some k) Nl Sl). reflexivity.
     + (* l, kind=k *)
       rewrite after_type_paren; [|apply padded_nonempty; destruct l; [congruence|discriminate]
                                  | |exact T].
@@ -958,29 +929,28 @@ Proof.
       rewrite finish_char. cbv zeta.
       rewrite split_two by (try (apply keyeq_no_comma; [reflexivity|assumption]); assumption).
       change (2 <? 2) with false. cbv match. fixty.
-      rewrite (char_first_positional l _ None El R), (char_kind_named _ k [] (Some l) Ek Ck Qk). reflexivity.
+      rewrite (char_first_positional l _ None El), (char_kind_named _ k [] (Some l) Ek Qk). reflexivity.
   - (* length only *)
     apply andb_true_iff in W as [El Cl]. apply negb_true_iff in Cl.
     destruct (expr_ok_inv l El) as (Nl & Sl & _ & Bl).
     rewrite <- app_assoc, P.
     destruct (t_form sp) as [|[|f]] eqn:Form.
-    + destruct (t_bstar sp =? 0) eqn:Bs; [|discriminate]. apply Nat.eqb_eq in Bs. rewrite Bs. cbn [blanks repeat app].
-      destruct (all_digits l) eqn:Ad.
-      * destruct (all_digits_inv l Ad) as (_ & Dl). now rewrite (after_type_star _ l n t Nl Dl T).
-      * cbn [app]. rewrite <- app_assoc. cbn [app].
-        rewrite (after_type_star_paren _ l n t Nl Bl T). now rewrite (remove_ws_id l Sl).
+    + destruct (all_digits l) eqn:Ad.
+      * destruct (all_digits_inv l Ad) as (_ & Dl). cbn [app]. rewrite <- app_assoc.
+        now rewrite (after_type_star _ (t_bstar sp) l n t Nl Dl T).
+      * cbn [app]. rewrite <- !app_assoc. cbn [app]. rewrite <- app_assoc. cbn [app].
+        rewrite (after_type_star_paren _ (t_bstar sp) l n t Nl Bl T). now rewrite (remove_ws_id l Sl).
     + rewrite paren_shape.
       rewrite after_type_paren; [|now apply padded_nonempty|now rewrite bal_padded|exact T].
       rewrite remove_ws_padded, (remove_ws_id l Sl), finish_char. cbv zeta.
       rewrite (split_on_none c_comma l Cl). change (2 <? 1) with false. cbv match. fixty.
-      now rewrite (char_first_positional l [] None El R).
-    + assert (Sl' : simple_len l = true) by (unfold named_region in R; destruct (simple_len l); [reflexivity|discriminate]).
-      rewrite paren_shape.
+      now rewrite (char_first_positional l [] None El).
+    + rewrite paren_shape.
       rewrite after_type_paren; [|apply padded_nonempty, keyeq_nonempty, Nl
                                  |now rewrite bal_padded, bal_keyeq by reflexivity|exact T].
       rewrite remove_ws_padded, remove_ws_keyeq by (try reflexivity; exact Sl). rewrite finish_char. cbv zeta.
       rewrite split_on_none by (apply keyeq_no_comma; [reflexivity|exact Cl]).
-      change (2 <? 1) with false. cbv match. fixty. now rewrite (char_first_named _ l [] None Sl').
+      change (2 <? 1) with false. cbv match. fixty. now rewrite (char_first_named _ l [] None Nl Sl).
   - (* kind only *)
     apply andb_true_iff in W as [Ek Ck]. apply negb_true_iff in Ck.
     destruct (expr_ok_inv k Ek) as (Nk & Sk & _ & Bk). pose proof (expr_quote k Ek) as Qk.
@@ -989,7 +959,7 @@ Proof.
                                |now rewrite bal_padded, bal_keyeq by reflexivity|exact T].
     rewrite remove_ws_padded, remove_ws_keyeq by (try reflexivity; exact Sk). rewrite finish_char. cbv zeta.
     rewrite split_on_none by (apply keyeq_no_comma; [reflexivity|exact Ck]).
-    change (2 <? 1) with false. cbv match. fixty. now rewrite (char_kind_named _ k [] None Ek Ck Qk).
+    change (2 <? 1) with false. cbv match. fixty. now rewrite (char_kind_named _ k [] None Ek Qk).
   - (* bare *)
     rewrite P. now rewrite (after_type_none _ n t T).
 Qed.
@@ -999,81 +969,57 @@ Definition spec_parsed (T : atype) (rest : str) : ptype :=
   let '(vt, k, l, p) := spec_ptype T in mkpt vt rest k l p.
 
 Theorem type_spellings sp T n t :
-  type_ok sp T = true -> type_region sp T = 0 -> tail_ok n t = true ->
+  type_ok sp T = true -> tail_ok n t = true ->
   parse_type (render_type sp T ++ blanks n ++ t) = Ok (spec_parsed T t).
 Proof.
-  intros W R H. destruct T as [b k| | |l k|cls name].
+  intros W H. destruct T as [b k| | |l k|cls name].
   - now apply type_spellings_num.
-  - apply (type_spellings_double sp false n t R H).
-  - apply (type_spellings_double sp true n t R H).
+  - apply (type_spellings_double sp false n t H).
+  - apply (type_spellings_double sp true n t H).
   - now apply type_spellings_char.
   - unfold spec_parsed. cbn [spec_ptype]. now apply type_spellings_derived.
 Qed.
-
-(* the full statement, without the region hypothesis, is false of the code *)
-Definition type_spellings_statement : Prop :=
-  forall sp T n t, type_ok sp T = true -> tail_ok n t = true ->
-    parse_type (render_type sp T ++ blanks n ++ t) = Ok (spec_parsed T t).
 
 Definition plain_sp : tspell := mkts [] [] 0 0 0 0 0 1.
 
 Example type_spellings_nonvacuous :
   let sp := mkts [true; false; true] [true] 1 1 1 2 0 1 in
-  let T := ANum BReal (Some (s "selected_real_kind(6)")) in
-  type_ok sp T = true /\ type_region sp T = 0 /\ tail_ok 0 (s ", intent(in) :: x") = true /\
-  render_type sp T = s "ReAl ( Kind  =  selected_real_kind(6) )" /\
+  let T := ANum BReal (Some (s "selected_real_kind(6,37)")) in
+  type_ok sp T = true /\ tail_ok 0 (s ", intent(in) :: x") = true /\
+  render_type sp T = s "ReAl ( Kind  =  selected_real_kind(6,37) )" /\
   type_ok plain_sp (AChar (Some (s "*")) (Some (s "ck"))) = true /\ tail_ok 1 (s "x") = true.
 Proof. repeat split; vm_compute; reflexivity. Qed.
 
-Theorem type_spellings_refuted_double :
-  exists sp T n t, type_ok sp T = true /\ tail_ok n t = true /\ type_region sp T = 1 /\
-    parse_type (render_type sp T ++ blanks n ++ t) = Ok (mkpt (s "doubleprecision") t None None None).
-Proof. exists (mkts [] [] 0 0 0 0 0 0), ADouble, 1, (s "x"). repeat split; vm_compute; reflexivity. Qed.
-
-Theorem type_spellings_refuted_star :
-  exists sp T n t, type_ok sp T = true /\ tail_ok n t = true /\ type_region sp T = 2 /\
-    parse_type (render_type sp T ++ blanks n ++ t) = Err (s "ValueError").
-Proof. exists (mkts [] [] 2 0 0 0 1 1), (ANum BReal (Some (s "8"))), 1, (s "x"). repeat split; vm_compute; reflexivity. Qed.
-
-Theorem character_spellings_refuted_len :
-  exists sp T n t, type_ok sp T = true /\ tail_ok n t = true /\ type_region sp T = 3 /\
-    parse_type (render_type sp T ++ blanks n ++ t) = Ok (mkpt (s "character") t None (Some (s "n")) None) /\
-    spec_parsed T t = mkpt (s "character") t None (Some (s "n+1")) None.
-Proof. exists (mkts [] [] 2 0 0 0 0 1), (AChar (Some (s "n+1")) None), 1, (s "c"). repeat split; vm_compute; reflexivity. Qed.
-
-Theorem type_spellings_refuted_kind_comma :
-  exists sp T n t, type_ok sp T = true /\ tail_ok n t = true /\ type_region sp T = 4 /\
-    parse_type (render_type sp T ++ blanks n ++ t) = Ok (mkpt (s "real") t (Some (s "selected_real_kind(6")) None None).
-Proof.
-  exists (mkts [] [] 1 0 0 0 0 1), (ANum BReal (Some (s "selected_real_kind(6,37)"))), 1, (s "r").
-  repeat split; vm_compute; reflexivity.
-Qed.
-
-Theorem type_spellings_refuted : ~ type_spellings_statement.
-Proof.
-  intros H. specialize (H (mkts [] [] 0 0 0 0 0 0) ADouble 1 (s "x") eq_refl eq_refl).
-  vm_compute in H. discriminate H.
-Qed.
+(* the inputs on which the code used to fail (recorded findings, repaired): kept as examples *)
+Example type_spellings_regressions :
+  parse_type (s "doubleprecision x") = Ok (mkpt (s "double precision") (s "x") None None None) /\
+  parse_type (s "doublecomplex z") = Ok (mkpt (s "double complex") (s "z") None None None) /\
+  parse_type (s "real * 8 x") = Ok (mkpt (s "real") (s "x") (Some (s "8")) None None) /\
+  parse_type (s "character * 10 c") = Ok (mkpt (s "character") (s "c") None (Some (s "10")) None) /\
+  parse_type (s "character * ( * ) c") = Ok (mkpt (s "character") (s "c") None (Some (s "*")) None) /\
+  parse_type (s "character(len=n+1) c") = Ok (mkpt (s "character") (s "c") None (Some (s "n+1")) None) /\
+  parse_type (s "character(2*n) c") = Ok (mkpt (s "character") (s "c") None (Some (s "2*n")) None) /\
+  parse_type (s "real(kind=selected_real_kind(6,37)) r")
+  = Ok (mkpt (s "real") (s "r") (Some (s "selected_real_kind(6,37)")) None None).
+Proof. repeat split; vm_compute; reflexivity. Qed.
 
 (* the report does not depend on the spelling: letter case of every keyword, the three ways of
    writing a kind, every order of len= / kind=, blanks *)
 Theorem case_invariance sp sp' T n t :
-  type_ok sp T = true -> type_region sp T = 0 -> type_ok sp' T = true -> type_region sp' T = 0 ->
-  tail_ok n t = true ->
+  type_ok sp T = true -> type_ok sp' T = true -> tail_ok n t = true ->
   parse_type (render_type sp T ++ blanks n ++ t) = parse_type (render_type sp' T ++ blanks n ++ t).
 Proof. intros. now rewrite !type_spellings. Qed.
 
 Example case_invariance_example :
   parse_type (s "INTEGER*4 x") = parse_type (s "integer ( Kind = 4 ) x") /\
   parse_type (s "character(len=*, kind=ck) c") = parse_type (s "CHARACTER ( KIND = ck , LEN = * ) c") /\
-  parse_type (s "Double   Precision x") = parse_type (s "double precision x").
+  parse_type (s "Double   Precision x") = parse_type (s "doubleprecision x").
 Proof. repeat split; vm_compute; reflexivity. Qed.
 
 (* attributes that are kept as text keep their spelling: the report depends on letter case *)
 Definition attr_case_statement : Prop :=
   forall sp sp' d,
     type_ok (ds_type sp) (d_type d) = true -> type_ok (ds_type sp') (d_type d) = true ->
-    type_region (ds_type sp) (d_type d) = 0 -> type_region (ds_type sp') (d_type d) = 0 ->
     ds_dimattr sp = false -> ds_dimattr sp' = false ->
     declaration (render_decl sp d) (s "public") = declaration (render_decl sp' d) (s "public").
 
@@ -1084,7 +1030,7 @@ Definition target_decl : adecl :=
 Theorem case_invariance_refuted_attribute : ~ attr_case_statement.
 Proof.
   intros H.
-  specialize (H plain_dspell upper_dspell target_decl eq_refl eq_refl eq_refl eq_refl eq_refl eq_refl).
+  specialize (H plain_dspell upper_dspell target_decl eq_refl eq_refl eq_refl eq_refl).
   vm_compute in H. discriminate H.
 Qed.
 
@@ -1145,11 +1091,11 @@ Proof.
   simpl. destruct (Ascii.eqb c d) eqn:E; [apply Ascii.eqb_eq in E; subst; congruence|]. now rewrite (IH Wx).
 Qed.
 
-Lemma record_dimlike st g1 a name :
+Lemma record_dimlike st lits g1 a name :
   remove_blanks (lower g1) = a -> seqb a (s "data") = false ->
   one_of a [s "dimension"; s "allocatable"; s "pointer"] = true ->
   forallb is_word name = true ->
-  record_attribute st g1 name = Ok (mkas (dict_append (lower name) a (as_attr st)) (as_param st)).
+  record_attribute st lits g1 name = Ok (mkas (dict_append (lower name) a (as_attr st)) (as_param st)).
 Proof.
   intros E D O W. unfold record_attribute. rewrite E, D, O.
   rewrite (paren_split_words c_comma name W eq_refl). cbn [fold_left].
@@ -1157,11 +1103,11 @@ Proof.
   now rewrite app_nil_r.
 Qed.
 
-Lemma record_plain st g1 a name :
+Lemma record_plain st lits g1 a name :
   remove_blanks (lower g1) = a -> seqb a (s "data") = false ->
   one_of a [s "dimension"; s "allocatable"; s "pointer"] = false -> seqb a (s "parameter") = false ->
   forallb is_word name = true ->
-  record_attribute st g1 name = Ok (mkas (dict_append (lower name) a (as_attr st)) (as_param st)).
+  record_attribute st lits g1 name = Ok (mkas (dict_append (lower name) a (as_attr st)) (as_param st)).
 Proof.
   intros E D O P W. unfold record_attribute. rewrite E, D, O, P.
   rewrite (paren_split_words c_comma name W eq_refl). cbn [fold_left bind].
@@ -1170,9 +1116,9 @@ Qed.
 
 Lemma apply_text_attr params v a :
   one_of a [s "public"; s "private"; s "protected"] = false -> seqb (firstn 6 a) (s "intent") = false ->
-  dim_re a = false -> seqb a (s "parameter") = false ->
+  seqb a (s "optional") = false -> dim_re a = false -> seqb a (s "parameter") = false ->
   apply_attr params (Ok v) a = Ok (set_attribs v (v_attribs v ++ [a])).
-Proof. intros A B C D. unfold apply_attr. cbn [bind]. now rewrite A, B, C, D. Qed.
+Proof. intros A B O C D. unfold apply_attr. cbn [bind]. now rewrite A, B, O, C, D. Qed.
 
 (* attributes that both forms report as a piece of text *)
 Definition text_attrs : list str :=
@@ -1183,21 +1129,22 @@ Definition text_attrs : list str :=
    lower case on the declaration). *)
 Theorem attr_stmt_equiv a v acc :
   In a text_attrs -> forallb is_word (v_name v) = true ->
-  (exists st, record_attribute (mkas [] []) a (v_name v) = Ok st /\
+  (exists st, record_attribute (mkas [] []) [] a (v_name v) = Ok st /\
               process_attribs st [v] = Ok [set_attribs v (v_attribs v ++ [a])])
   /\ classify acc a = mkacc (a_attribs acc ++ [a]) (a_intent acc) (a_optional acc) (a_permission acc) (a_parameter acc).
 Proof.
   intros Ha W. unfold text_attrs in Ha.
   assert (Fin : forall st, as_attr st = [(lower (v_name v), [a])] ->
                 (one_of a [s "public"; s "private"; s "protected"] = false) ->
-                seqb (firstn 6 a) (s "intent") = false -> dim_re a = false -> seqb a (s "parameter") = false ->
+                seqb (firstn 6 a) (s "intent") = false -> seqb a (s "optional") = false ->
+                dim_re a = false -> seqb a (s "parameter") = false ->
                 process_attribs st [v] = Ok [set_attribs v (v_attribs v ++ [a])]).
-  { intros st E A B C D. unfold process_attribs. rewrite E. cbn [process_go dict_get]. rewrite seqb_refl.
-    cbn [fold_left]. now rewrite (apply_text_attr _ v a A B C D). }
+  { intros st E A B O C D. unfold process_attribs. rewrite E. cbn [process_go dict_get]. rewrite seqb_refl.
+    cbn [fold_left]. now rewrite (apply_text_attr _ v a A B O C D). }
   destruct Ha as [<-|[<-|Ha]].
-  - split; [|reflexivity]. eexists. split; [apply (record_dimlike _ _ (s "allocatable")); try reflexivity; exact W|].
+  - split; [|reflexivity]. eexists. split; [apply (record_dimlike _ _ _ (s "allocatable")); try reflexivity; exact W|].
     apply Fin; reflexivity.
-  - split; [|reflexivity]. eexists. split; [apply (record_dimlike _ _ (s "pointer")); try reflexivity; exact W|].
+  - split; [|reflexivity]. eexists. split; [apply (record_dimlike _ _ _ (s "pointer")); try reflexivity; exact W|].
     apply Fin; reflexivity.
   - repeat (destruct Ha as [<-|Ha];
             [split; [|reflexivity]; eexists; split;
@@ -1213,30 +1160,60 @@ Example attr_stmt_equiv_example :
   = unit_model (mkhdr USubroutine None (s "sub") (Some (s "(a)")) None) [s "real, intent(in) :: a"].
 Proof. repeat split; vm_compute; reflexivity. Qed.
 
-(* the same equivalence fails for OPTIONAL, PARAMETER, DIMENSION, INTENT(IN OUT) and for the
-   result variable of a function *)
-Definition unit_vars_of (h : header) (body : list str) : list var :=
-  match unit_model h body with Ok u => u_args u ++ match u_retvar u with Some r => [r] | None => [] end ++ u_vars u | _ => [] end.
+(* OPTIONAL, INTENT and PARAMETER set a field of the variable instead of adding a piece of text; the
+   statement form sets the same field as the attribute on the declaration *)
+Definition with_optional (v : var) : var :=
+  mkvar (v_name v) (v_vartype v) (v_kind v) (v_strlen v) (v_proto v) (v_attribs v) (v_intent v) true
+        (v_permission v) (v_parameter v) (v_points v) (v_initial v) (v_dimension v).
+Definition with_intent (v : var) (i : str) : var :=
+  mkvar (v_name v) (v_vartype v) (v_kind v) (v_strlen v) (v_proto v) (v_attribs v) i (v_optional v)
+        (v_permission v) (v_parameter v) (v_points v) (v_initial v) (v_dimension v).
+Definition with_parameter (v : var) (init : str) : var :=
+  mkvar (v_name v) (v_vartype v) (v_kind v) (v_strlen v) (v_proto v) (v_attribs v) (v_intent v) (v_optional v)
+        (v_permission v) true (v_points v) (Some init) (v_dimension v).
 
+Theorem attr_stmt_equiv_optional params v acc :
+  apply_attr params (Ok v) (s "optional") = Ok (with_optional v) /\
+  classify acc (s "optional") = mkacc (a_attribs acc) (a_intent acc) true (a_permission acc) (a_parameter acc).
+Proof. split; reflexivity. Qed.
+
+Theorem attr_stmt_equiv_intent params v acc i :
+  In i [s "in"; s "out"; s "inout"] ->
+  apply_attr params (Ok v) (s "intent(" ++ i ++ s ")") = Ok (with_intent v i) /\
+  classify acc (s "intent(" ++ i ++ s ")")
+  = mkacc (a_attribs acc) i (a_optional acc) (a_permission acc) (a_parameter acc).
+Proof. intros [<-|[<-|[<-|[]]]]; split; reflexivity. Qed.
+
+Theorem attr_stmt_equiv_parameter params v init :
+  pdict_get (lower (v_name v)) params = Some init ->
+  apply_attr params (Ok v) (s "parameter") = Ok (with_parameter v init).
+Proof. intros H. unfold apply_attr. cbn [bind]. change (one_of (s "parameter") _) with false. cbv match.
+       change (seqb (firstn 6 (s "parameter")) (s "intent")) with false.
+       change (seqb (s "parameter") (s "optional")) with false.
+       change (dim_re (s "parameter")) with false. change (seqb (s "parameter") (s "parameter")) with true.
+       cbv match. cbn [andb]. now rewrite H. Qed.
+
+(* the inputs on which the two forms used to differ (recorded findings, repaired): now equal *)
 Definition sub1 (arg : str) : header := mkhdr USubroutine None (s "sub") (Some (c_lpar :: arg ++ [c_rpar])) None.
 
-(* the single variable each of two bodies yields, put to a test *)
+Example attr_stmt_regressions :
+  unit_model (sub1 (s "b")) [s "integer b"; s "optional b"] = unit_model (sub1 (s "b")) [s "integer, optional :: b"] /\
+  unit_model (sub1 []) [s "character(len=5) str"; s "parameter (str = 'a  b')"]
+  = unit_model (sub1 []) [s "character(len=5), parameter :: str = 'a  b'"] /\
+  unit_model (sub1 (s "d")) [s "real d"; s "intent(in out) d"] = unit_model (sub1 (s "d")) [s "real, intent(in out) :: d"] /\
+  unit_model (mkhdr UFunction None (s "f") (Some (s "()")) (Some (s "r"))) [s "real r"; s "save r"; s "pointer r"]
+  = unit_model (mkhdr UFunction None (s "f") (Some (s "()")) (Some (s "r"))) [s "real, save, pointer :: r"] /\
+  unit_model (mkhdr UFunction (Some (s "real")) (s "f") (Some (s "()")) None) [s "save f"]
+  = unit_model (mkhdr UFunction None (s "f") (Some (s "()")) None) [s "real, save :: f"].
+Proof. repeat split; vm_compute; reflexivity. Qed.
+
+(* still different: an array spec given by the DIMENSION attribute or a DIMENSION statement is kept
+   as attribute text, whereas the array spec after the name fills the dimension field *)
+Definition unit_vars_of (h : header) (body : list str) : list var :=
+  match unit_model h body with Ok u => u_args u ++ match u_retvar u with Some r => [r] | None => [] end ++ u_vars u | _ => [] end.
 Definition both (h : header) (b1 b2 : list str) (p : var -> var -> bool) : bool :=
   match unit_vars_of h b1, unit_vars_of h b2 with [v], [v'] => p v v' | _, _ => false end.
 Definition attribs_are (v : var) (l : list str) : bool := list_eqb seqb (v_attribs v) l.
-Definition initial_is (v : var) (x : str) : bool := opt_eqb seqb (v_initial v) (Some x).
-
-Theorem attr_stmt_equiv_refuted_optional :
-  both (sub1 (s "b")) [s "integer b"; s "optional b"] [s "integer, optional :: b"]
-       (fun v v' => negb (v_optional v) && attribs_are v [s "optional"] && v_optional v' && attribs_are v' []) = true.
-Proof. vm_compute. reflexivity. Qed.
-
-Theorem attr_stmt_equiv_refuted_parameter :
-  both (sub1 []) [s "character(len=5) str"; s "parameter (str = 'a  b')"]
-       [s "character(len=5), parameter :: str = 'a  b'"]
-       (fun v v' => negb (v_parameter v) && attribs_are v [s "parameter"] && initial_is v (s " ""0""")
-                    && v_parameter v' && attribs_are v' [] && initial_is v' (s "'a" ++ [nbsp; nbsp] ++ s "b'")) = true.
-Proof. vm_compute. reflexivity. Qed.
 
 Theorem attr_stmt_equiv_refuted_dimension :
   both (sub1 []) [s "real a"; s "dimension a(3)"] [s "real :: a(3)"]
@@ -1247,41 +1224,15 @@ Theorem attr_stmt_equiv_refuted_dimension :
                     && seqb (v_dimension v') (s "(3)") && attribs_are v' []) = true.
 Proof. split; vm_compute; reflexivity. Qed.
 
-Theorem attr_stmt_equiv_refuted_intent_in_out :
-  both (sub1 (s "d")) [s "real d"; s "intent(in out) d"] [s "real, intent(in out) :: d"]
-       (fun v v' => seqb (v_intent v) [] && seqb (v_intent v') (s "inout")) = true.
-Proof. vm_compute. reflexivity. Qed.
-
-Theorem attr_stmt_equiv_refuted_result :
-  both (mkhdr UFunction None (s "f") (Some (s "()")) (Some (s "r")))
-       [s "real r"; s "dimension r(3)"; s "save r"] [s "real, dimension(3), save :: r"]
-       (fun v v' => attribs_are v [] && attribs_are v' [s "dimension(3)"; s "save"]) = true.
-Proof. vm_compute. reflexivity. Qed.
-
-(* typed function prefixes *)
-Definition retvar_test (h : header) (body : list str) (p : var -> bool) : bool :=
-  match unit_model h body with Ok u => match u_retvar u with Some r => p r | None => false end | _ => false end.
-Definition attribs_of (h : header) (body : list str) : list str :=
-  match unit_model h body with Ok u => u_attribs u | _ => [] end.
+(* typed function prefixes: the result type keeps its letter case, prefix keywords are whole words *)
 Definition fun0 (attrs : option str) (name : str) : header := mkhdr UFunction attrs name (Some (s "()")) None.
 
-Theorem prefix_refuted_case :
-  retvar_test (fun0 (Some (s "real(WP)")) (s "f")) [] (fun r => opt_eqb seqb (v_kind r) (Some (s "wp"))) = true /\
-  retvar_test (fun0 None (s "f")) [s "real(WP) :: f"] (fun r => opt_eqb seqb (v_kind r) (Some (s "WP"))) = true.
-Proof. split; vm_compute; reflexivity. Qed.
-
-Theorem prefix_refuted_keyword :
-  retvar_test (fun0 (Some (s "type(module_t)")) (s "f3")) []
-              (fun r => opt_eqb (pair_eqb seqb seqb) (v_proto r) (Some (s "_t", []))) = true /\
-  attribs_of (fun0 (Some (s "type(module_t)")) (s "f3")) [] = [s "module"] /\
-  retvar_test (fun0 None (s "f3")) [s "type(module_t) :: f3"]
-              (fun r => opt_eqb (pair_eqb seqb seqb) (v_proto r) (Some (s "module_t", []))) = true.
+Example prefix_regressions :
+  unit_model (fun0 (Some (s "real(WP)")) (s "f")) [] = unit_model (fun0 None (s "f")) [s "real(WP) :: f"] /\
+  unit_model (fun0 (Some (s "type(module_t)")) (s "f3")) [] = unit_model (fun0 None (s "f3")) [s "type(module_t) :: f3"] /\
+  unit_model (fun0 (Some (s "double precision")) (s "f")) [] = unit_model (fun0 None (s "f")) [s "double precision f"] /\
+  procedure_attributes (Some (s "Pure MODULE type(pure_t)")) = ([s "pure"; s "module"], s "type(pure_t)").
 Proof. repeat split; vm_compute; reflexivity. Qed.
-
-Theorem prefix_refuted_double :
-  retvar_test (fun0 (Some (s "double precision")) (s "f")) [] (fun r => seqb (v_vartype r) (s "doubleprecision")) = true /\
-  retvar_test (fun0 None (s "f")) [s "double precision f"] (fun r => seqb (v_vartype r) (s "double precision")) = true.
-Proof. split; vm_compute; reflexivity. Qed.
 
 (* ------------------------------------------------------------------ argument order *)
 (* every dummy argument, in the order of the argument list, becomes the variable declared under
